@@ -47,6 +47,7 @@ type sseSession struct {
 	notificationChannel chan *JSONRPCNotification // Channel for notifications.
 	initialized         atomic.Bool               // Whether the session has been initialized.
 	writeMu             sync.Mutex                // Write mutex to prevent concurrent writes.
+	streamClosed        bool                      // Set under writeMu when the SSE handler returns; no writes after that.
 	createdAt           time.Time                 // Session creation time.
 	lastActivity        time.Time                 // Last activity time.
 	data                map[string]interface{}    // Session data.
@@ -470,6 +471,11 @@ func (s *SSEServer) handleSSE(w http.ResponseWriter, r *http.Request) {
 
 	// Clean up resources.
 	closeSessionDone(s.logger, session)
+	// Wait for a writer goroutine that is inside a write and keep later writes away: the
+	// response writer must not be used once this handler has returned.
+	session.writeMu.Lock()
+	session.streamClosed = true
+	session.writeMu.Unlock()
 	s.sessions.Delete(sessionID)
 	s.logger.Debugf("Cleaned up session %s", sessionID)
 }
@@ -541,6 +547,10 @@ func handleNotifications(ctx context.Context, logger Logger, w http.ResponseWrit
 			}
 
 			session.writeMu.Lock()
+			if session.streamClosed {
+				session.writeMu.Unlock()
+				return
+			}
 			fmt.Fprintf(w, "event: message\ndata: %s\n\n", data)
 			safeFlush(logger, flusher)
 			session.writeMu.Unlock()
@@ -568,6 +578,10 @@ func handleEventQueue(ctx context.Context, logger Logger, w http.ResponseWriter,
 		select {
 		case event := <-session.eventQueue:
 			session.writeMu.Lock()
+			if session.streamClosed {
+				session.writeMu.Unlock()
+				return
+			}
 			fmt.Fprint(w, event)
 			safeFlush(logger, flusher)
 			session.writeMu.Unlock()
@@ -599,6 +613,10 @@ func handleKeepAlive(ctx context.Context, logger Logger, w http.ResponseWriter, 
 		select {
 		case <-ticker.C:
 			session.writeMu.Lock()
+			if session.streamClosed {
+				session.writeMu.Unlock()
+				return
+			}
 			fmt.Fprint(w, ": keepalive\n\n")
 			safeFlush(logger, flusher)
 			session.writeMu.Unlock()
